@@ -38,6 +38,8 @@ pub trait Env {
     fn use_pick(&self, m: u8, i: u8) -> i64;
     fn boxed(&self, m: u8) -> i64;
     fn via_ref(&self, m: u8) -> i64;
+    fn tags(&self) -> i64;
+    fn tag(&self, k: u8) -> Option<i64>;
 }
 
 pub fn atom<E: Env>(e: &E, a: &Atom) -> i64 {
@@ -54,6 +56,8 @@ pub fn atom<E: Env>(e: &E, a: &Atom) -> i64 {
         Atom::UsePick(m, i) => e.use_pick(*m, *i),
         Atom::Boxed(m) => e.boxed(*m),
         Atom::ViaRef(m) => e.via_ref(*m),
+        Atom::Tags => e.tags(),
+        Atom::Tag(k) => e.tag(*k).unwrap_or(ABSENT),
     }
 }
 
